@@ -171,6 +171,11 @@ def gen_streams(tier):
     streams.append(assemble([valid_single(), b"\xff\xfe\xfd " + marker(nxt()), valid_single()]))
     streams.append(assemble([b"\x00" + marker(nxt()), b"\r", b"\r\r", valid_single()]))
     streams.append(assemble([b"x" * 100000 + marker(nxt()), valid_single()]))
+    # lines of exactly the lengths at which a fixed read buffer would fill (with and without a CR)
+    for L in (255, 256, 511, 512, 1023, 1024, 2047, 2048, 4095, 4096, 8191, 8192, 65535, 65536):
+        for d in (-1, 0, 1):
+            head = b"pad " + marker(nxt()) + b" "
+            streams.append(assemble([valid_single(), head + b"x" * (L + d - len(head)), valid_single(), valid_single()]))
     streams.append(assemble([valid_single(), b"y" * 5000 + marker(nxt())], final_newline=False))    # over-long unterminated last line
     streams.append(assemble([valid_single(), nmea.line(tag=marker(nxt()), n=0, k=1, payload=b"15M"), valid_single()]))
     # a complete group whose payload does not decode, then an orphan tail with the same id: still an orphan
@@ -202,6 +207,13 @@ def gen_streams(tier):
         for pos in range(1, n):
             g = group(n)
             streams.append(assemble(g[:pos] + [noise()] + g[pos:] + [valid_single()]))
+    # after a delivered group (and on an idle tool): a decodable sentence numbered outside 1 <= k <= n
+    for (n0, k0) in ((0, 1), (0, 1), (1, 2), (2, 3), (0, 2), (255, 255)):
+        g = group(rnd.randrange(2, 4))
+        buf = F.rand_message(tb, rnd)
+        pay, fill = nmea.armor(buf.bytes(), buf.n)
+        oddl = nmea.line(tag=marker(nxt()), n=n0, k=k0, payload=pay, fill=fill)
+        streams.append(assemble(g + [oddl, valid_single()]))
     g3 = group(3)
     streams.append(assemble([g3[0], g3[1], nmea.line(tag=marker(nxt()), n=2, k=3, sid=None, payload=b"0000"), valid_single()]))
     streams.append(assemble([(b"\\" + marker(nxt()) + b"\\" + s) if not s.startswith(b"\\") and s.startswith(b"!") else (b"junk " + marker(nxt()))
@@ -322,6 +334,10 @@ def gen_twin_streams(tier):
                 return nmea.line(tag=marker(i), payload=b"", fill=0)
             if k == 7:
                 return marker(i) + b"\r"
+            if rnd.random() < 0.5:      # noise of an exact length around a buffer-size boundary
+                L = rnd.choice([255, 256, 511, 512, 1023, 1024, 2047, 2048, 4095, 4096, 8191, 8192]) + rnd.choice([-1, 0, 0, 1])
+                head = b"pad " + marker(i) + b" "
+                return head + b"x" * max(0, L - len(head))
             return single_with(i)
 
         def single_with(i):
